@@ -96,6 +96,14 @@ fn real_main(args: &[String]) -> i32 {
             runner::install_panic_hook();
             engine::hist::isolate_main()
         }
+        "field-cover" => {
+            // maintenance aid: the parameter sets the field-value coverage search adds
+            runner::install_panic_hook();
+            for s in engine::hist::field_cover_specs(ctx_from(&args, "C15").seed) {
+                println!("{}", s.label());
+            }
+            0
+        }
         "describe" => {
             let Some(prop) = args.get(2) else { return 2 };
             let Some(engine) = engine::engine_for(prop) else { return 2 };
